@@ -565,6 +565,237 @@ def task_overlap_assembly_quat(ctx):
                     ctx.prove("%s.%s.block[p%s,p%s] = -S221 v v^T + S222 (1 - v v^T)" % (tag, br, "xyz"[i], "xyz"[j]), di.a[0, 1 + i, 1 + j] == want, pc=pc, replay=rp, classify=classify_branch)
     ctx.assume_note("unit bond vector; local-frame overlaps are inputs; the frame is the real rotate_with_quaternion (so its antipodal-cone defect shows here too)")
 
+# ----------------------------------------------------------------------------
+# O5: d-orbital rotation tables (RotationMatrixD): frame, induced d representation, pair-product table, application
 
-TASKS_QUICK = ["rotq", "rotq_jacobian", "w_rotation", "overlap_assembly_d", "overlap_assembly_sp", "overlap_assembly_quat"]
+RMD = "seqm.seqm_functions.RotationMatrixD"
+
+
+def _slice_statements(target, start_pred, stop_pred):
+    """top-level statements of `target` from the first one satisfying start_pred(text) up to (excluding) the first later one
+    satisfying stop_pred(text); read from the current source on every run."""
+    import ast, inspect, textwrap
+    from pyvc import world as W
+
+    _, _, fn = W.resolve(target)
+    body = ast.parse(textwrap.dedent(inspect.getsource(fn))).body[0].body
+    texts = [ast.unparse(b) for b in body]
+    k0 = next((k for k, t in enumerate(texts) if start_pred(t)), None)
+    if k0 is None:
+        raise Unmodelled("contract anchor (start) not found in %s" % target)
+    k1 = next((k for k in range(k0 + 1, len(body)) if stop_pred(texts[k])), len(body))
+    stmts = [b for b in body[k0:k1] if not (isinstance(b, ast.Expr) and isinstance(b.value, ast.Constant))]
+    loads, stores = set(), set()
+    for b in stmts:
+        for n in ast.walk(b):
+            if isinstance(n, ast.Name):
+                (stores if isinstance(n.ctx, ast.Store) else loads).add(n.id)
+    return compile(ast.Module(body=stmts, type_ignores=[]), "<statements %d..%d of %s>" % (k0, k1, target), "exec"), loads, stores, len(stmts)
+
+
+def _local_forms():
+    """canonical local d functions in local axes (x' = axis 1, y' = axis 2, z' = axis 0 = bond): order sigma, pi, pi', delta, delta'"""
+    s3h = Sym(E.sqrt(E.const(3))) / 2
+    z = lambda: [[S(0)] * 3 for _ in range(3)]
+    F = []
+    f = z(); f[0][0] = S(1); f[1][1] = f[2][2] = S(Fraction(-1, 2)); F.append(f)          # z'^2
+    f = z(); f[1][0] = f[0][1] = s3h; F.append(f)                                           # x'z'
+    f = z(); f[2][0] = f[0][2] = s3h; F.append(f)                                           # y'z'
+    f = z(); f[1][1] = s3h; f[2][2] = -s3h; F.append(f)                                     # x'^2 - y'^2
+    f = z(); f[1][2] = f[2][1] = s3h; F.append(f)                                           # x'y'
+    return F
+
+
+def _pair_index(a, b):
+    a, b = max(a, b), min(a, b)
+    return a * (a + 1) // 2 + b
+
+
+def sym2(T):
+    """C[(mu nu),(k l)]: coefficient of the local product phi_k phi_l (k >= l) in chi_mu chi_nu, chi_mu = sum_k T[mu][k] phi_k"""
+    n = len(T)
+    C = {}
+    for mu in range(n):
+        for nu in range(mu + 1):
+            for k in range(n):
+                for l in range(k + 1):
+                    v = T[mu][k] * T[nu][l] + (T[mu][l] * T[nu][k] if k != l else 0)
+                    C[(_pair_index(mu, nu), _pair_index(k, l))] = v
+    return C
+
+
+def task_rotd_prologue(ctx):
+    """GenerateRotationMatrix, direction cosines: (CA SB, SA SB, CB) is the (sign-flipped) bond vector -- exactly on the generic
+    path, within the 1e-10 polar threshold on the path xy < 1e-10 -- and CA^2+SA^2 = CB^2+SB^2 = 1 on both."""
+    tgt = RMD + ":GenerateRotationMatrix"
+    ctx.under_contract(tgt, note="statements up to the direction cosines (C2A = ... excluded)")
+    code, loads, stores, nst = _slice_statements(tgt, lambda t: t.startswith("INDX"), lambda t: t.startswith("C2A"))
+    (vx, vy, vz), v, unit = _unit_v(st.float64)
+
+    def thunk():
+        assume(unit)
+        env = {"torch": st, "np": np, "xij": v}
+        exec(code, env)
+        return {k: env[k].a[0] for k in ("CA", "SA", "CB", "SB")}
+
+    ex = ctx.explore(thunk, name="rotd-prologue")
+    tol = S(Fraction(1, 10**10))
+    kinds = set()
+    for p in ex.paths:
+        if p.raised is not None:
+            ctx.fail("raises@p%d" % p.path_id, repr(p.raised) + p.notes.get("traceback", "")[-500:])
+            continue
+        c = p.value
+        pc = list(p.pc) + [unit]
+        polar = not isinstance(c["SA"], Sym) or c["SA"].n.op == "const"
+        br = "polar" if polar else "generic"
+        kinds.add(br)
+        ctx.prove("%s@p%d.CA^2+SA^2=1" % (br, p.path_id), S(c["CA"]) * S(c["CA"]) + S(c["SA"]) * S(c["SA"]) == 1, pc=pc)
+        ctx.prove("%s@p%d.CB^2+SB^2=1" % (br, p.path_id), S(c["CB"]) * S(c["CB"]) + S(c["SB"]) * S(c["SB"]) == 1, pc=pc) if not polar else \
+            ctx.prove("%s@p%d.CB^2+SB^2=1" % (br, p.path_id), S(c["CB"]) * S(c["CB"]) + S(c["SB"]) * S(c["SB"]) == 1, pc=pc)
+        bond = (S(c["CA"]) * S(c["SB"]), S(c["SA"]) * S(c["SB"]), S(c["CB"]))
+        for k, comp in enumerate((vx, vy, vz)):
+            d = bond[k] - (-comp)
+            if polar:
+                ctx.prove("polar@p%d.bond-direction[%d] within 1e-10 of -xij" % (p.path_id, k), (d <= tol) & (-d <= tol), pc=pc)
+            else:
+                ctx.prove("generic@p%d.bond-direction[%d] = -xij" % (p.path_id, k), d == 0, pc=pc)
+    if kinds != {"polar", "generic"}:
+        ctx.error("paths", "expected generic and polar paths, got %r" % kinds)
+    ctx.assume_note("unit input vector; the polar clause is a tolerance clause (the frame of a bond within 1e-10 rad of +-z is the frame of +-z)")
+
+
+def _rotd_tables(ctx):
+    """P, D and `matrix` of GenerateRotationMatrix as functions of parametrised direction cosines (real statements)."""
+    tgt = RMD + ":GenerateRotationMatrix"
+    code, loads, stores, nst = _slice_statements(tgt, lambda t: t.startswith("C2A"), lambda t: t.startswith("return"))
+    t, u = real("t"), real("u")
+    ca, sa = (1 - t * t) / (1 + t * t), 2 * t / (1 + t * t)
+    cb, sb = (1 - u * u) / (1 + u * u), 2 * u / (1 + u * u)
+
+    def thunk():
+        env = {"torch": st, "np": np, "xij": st.zeros(1, 3), "device": st._CPU, "dtype": st.float64, "INDX": [0, 1, 3, 6, 10, 15, 21, 28, 36],
+               "PT5SQ3": Sym(E.sqrt(E.const(3))) / 2, "PT5": S(Fraction(1, 2)),
+               "CA": st.tensor([ca]), "SA": st.tensor([sa]), "CB": st.tensor([cb]), "SB": st.tensor([sb])}
+        missing = loads - stores - set(env)
+        if missing:
+            raise Unmodelled("statements read names this contract does not provide: %r" % sorted(missing))
+        exec(code, env)
+        return env["P"], env["D"], env["matrix"]
+
+    ex = ctx.explore(thunk, name="rotd-tables")
+    if len(ex.paths) != 1 or ex.paths[0].raised is not None:
+        raise Unmodelled("GenerateRotationMatrix tail: %r %s" % ([p.raised for p in ex.paths], ex.paths[0].notes.get("traceback", "")[-600:] if ex.paths else ""))
+    return ex.paths[0].value, (ca, sa, cb, sb), nst
+
+
+def task_rotd_tables(ctx):
+    """GenerateRotationMatrix: (i) P is a proper rotation whose row 0 is the bond direction; (ii) D is the representation of that
+    rotation on the five real d functions (D[m][k] = (2/3) tr(B_m A_k), B_m the canonical local form on the axes P[0..2]);
+    (iii) every block of `matrix` (P-S, P-P, D-S, D-P, D-D) is the symmetrised-product table of T = diag(1, P, D)."""
+    tgt = RMD + ":GenerateRotationMatrix"
+    ctx.under_contract(tgt, note="statements from `C2A = ...` to the return; PT5SQ3 read as sqrt(3)/2 exactly (the source has 0.8660254037841, relative error 4e-13: a float-constant assumption)")
+    (P, D, M), (ca, sa, cb, sb), nst = _rotd_tables(ctx)
+    Pm = [[P.a[0, i, j] for j in range(3)] for i in range(3)]
+    Dm = [[D.a[0, i, j] for j in range(5)] for i in range(5)]
+    bond = (ca * sb, sa * sb, cb)
+    for j in range(3):
+        ctx.prove_eq("P.row0[%d] = bond direction" % j, Pm[0][j], bond[j])
+    for i in range(3):
+        for j in range(i, 3):
+            ctx.prove_eq("P.orthonormal-rows[%d,%d]" % (i, j), sum(Pm[i][k] * Pm[j][k] for k in range(3)), 1 if i == j else 0)
+    det = (Pm[0][0] * (Pm[1][1] * Pm[2][2] - Pm[1][2] * Pm[2][1]) - Pm[0][1] * (Pm[1][0] * Pm[2][2] - Pm[1][2] * Pm[2][0]) + Pm[0][2] * (Pm[1][0] * Pm[2][1] - Pm[1][1] * Pm[2][0]))
+    ctx.prove_eq("P.det = +1 or -1 consistently (value)", det * det, 1)
+    As = [_quad(n) for n in D_ORDER]
+    F = _local_forms()
+    names_l = ["sigma", "pi", "pi'", "delta", "delta'"]
+    for m in range(5):
+        # B_m = sum_ab F_m[a][b] e_a e_b^T in molecular coordinates, e_a = P[a]
+        B = [[sum(F[m][a][b] * Pm[a][i] * Pm[b][j] for a in range(3) for b in range(3)) for j in range(3)] for i in range(3)]
+        for k in range(5):
+            want = Fraction(2, 3) * sum(B[i][j] * As[k][j][i] for i in range(3) for j in range(3))
+            ctx.prove_eq("D[%s,%s] is the d representation of P" % (names_l[m], D_ORDER[k]), Dm[m][k], want)
+    # pair-product table: T[mu][k] = coefficient of local function k in molecular function mu
+    T = [[S(0)] * 9 for _ in range(9)]
+    T[0][0] = S(1)
+    for mu in range(3):
+        for k in range(3):
+            T[1 + mu][1 + k] = Pm[k][mu]
+    for mu in range(5):
+        for k in range(5):
+            T[4 + mu][4 + k] = Dm[k][mu]
+    C = sym2(T)
+    shell = lambda o: 0 if o == 0 else (1 if o < 4 else 2)
+    # rows of `matrix` within a class are the molecular pairs of that class in increasing triangular index; columns are local pairs
+    n_checked = 0
+    for kl in range(45):
+        k_ = max(a for a in range(9) if a * (a + 1) // 2 <= kl)
+        l_ = kl - k_ * (k_ + 1) // 2
+        cls = (shell(k_), shell(l_))
+        mol_pairs = [(_pair_index(a, b)) for a in range(9) for b in range(a + 1) if (shell(a), shell(b)) == cls]
+        for I, mp in enumerate(sorted(mol_pairs)):
+            got = M.a[0, I, kl]
+            want = C[(mp, kl)]
+            ctx.prove_eq("matrix[%d, local pair %d] = symmetrised product coefficient of molecular pair %d" % (I, kl, mp), got, want)
+            n_checked += 1
+    ctx.notes.append("GenerateRotationMatrix tail: %d statements; %d table entries checked" % (nst, n_checked))
+    ctx.canary_eq("a-sign-in-D", Dm[4][3], -Dm[4][3])
+    ctx.assume_note("rational parametrisation of the direction cosines; local d functions ordered (sigma, pi, pi', delta, delta') on the axes (P[1], P[2], P[0]) = (x', y', z')")
+
+
+def task_rotd_apply(ctx):
+    """Rotate2Center2Electron: (i) the 45x45 matrix YM it assembles from `matrix` through its index tables is the
+    symmetrised-product table of T on the triangular pair basis (tables MET/META/METB/METI against first principles);
+    (ii) its last statements compute YM * W * YM^T with the s-p block taken over unchanged (shape-generic, run on 12x12)."""
+    tgt = RMD + ":Rotate2Center2Electron"
+    ctx.under_contract(tgt)
+    ctx.under_contract(RMD + ":GenerateRotationMatrix", note="tail executed on symbolic P, D entries to produce `matrix`")
+    gcode, gloads, gstores, _ = _slice_statements(RMD + ":GenerateRotationMatrix", lambda t: t.startswith("K = 0"), lambda t: t.startswith("return"))
+    code1, loads1, stores1, n1 = _slice_statements(tgt, lambda t: t.startswith("MET ="), lambda t: t.startswith("FINAL = WW.clone"))
+    code2, loads2, stores2, n2 = _slice_statements(tgt, lambda t: t.startswith("FINAL = WW.clone"), lambda t: t.startswith("return"))
+    Psym, Dsym = st.symbolic((1, 3, 3), "P"), st.symbolic((1, 5, 5), "D")
+
+    def thunk():
+        env = {"torch": st, "np": np, "xij": st.zeros(1, 3), "device": st._CPU, "dtype": st.float64, "INDX": [0, 1, 3, 6, 10, 15, 21, 28, 36], "P": Psym, "D": Dsym}
+        exec(gcode, env)
+        env2 = {"torch": st, "np": np, "WW": st.zeros(1, 45, 45), "rotationMatrix": env["matrix"]}
+        exec(code1, env2)
+        YMs, Ws = st.symbolic((1, 12, 12), "Y"), st.symbolic((1, 12, 12), "W")
+        env3 = {"torch": st, "np": np, "WW": Ws, "YM": YMs}
+        exec(code2, env3)
+        return env2["YM"], env3["FINAL"], YMs, Ws
+
+    ex = ctx.explore(thunk, name="rotd-apply")
+    if len(ex.paths) != 1 or ex.paths[0].raised is not None:
+        ctx.error("paths", "%r %s" % ([p.raised for p in ex.paths], ex.paths[0].notes.get("traceback", "")[-700:] if ex.paths else ""))
+        return
+    YM, FINAL, YMs, Ws = ex.paths[0].value
+    T = [[S(0)] * 9 for _ in range(9)]
+    T[0][0] = S(1)
+    for mu in range(3):
+        for k in range(3):
+            T[1 + mu][1 + k] = Psym.a[0, k, mu]
+    for mu in range(5):
+        for k in range(5):
+            T[4 + mu][4 + k] = Dsym.a[0, k, mu]
+    C = sym2(T)
+    for mp in range(45):
+        for kl in range(45):
+            if mp == 0 or kl == 0:
+                want = S(1) if (mp == 0 and kl == 0) else S(0)
+            else:
+                want = C[(mp, kl)]
+            ctx.prove_eq("YM[molecular pair %d, local pair %d]" % (mp, kl), YM.a[0, mp, kl], want)
+    for i in range(12):
+        for j in range(12):
+            if i < 10 and j < 10:
+                want = Ws.a[0, j, i]
+            else:
+                want = sum(YMs.a[0, i, a] * Ws.a[0, a, b] * YMs.a[0, j, b] for a in range(12) for b in range(12))
+            ctx.prove_eq("result[%d,%d] = (YM W YM^T) outside the s-p block (same YM on both pair indices), W^T inside (the caller's convention for pairs without d functions)" % (i, j), FINAL.a[0, i, j], want)
+    ctx.assume_note("clause (ii) on 12x12 stand-ins for the 45x45 matrices (the statements are shape-generic: bmm, transpose, one fixed :10,:10 block)")
+    ctx.undecided_clause("that the local-frame d integrals handed to this routine are expressed in the frame P and are axially symmetric (they are to 5e-8 eV numerically: truncated literals in the local-integral code)")
+
+
+TASKS_QUICK = ["rotq", "rotq_jacobian", "w_rotation", "overlap_assembly_d", "overlap_assembly_sp", "overlap_assembly_quat", "rotd_prologue", "rotd_tables", "rotd_apply"]
 TASKS_THOROUGH = TASKS_QUICK
